@@ -191,6 +191,8 @@ Fixpoint replay (pk : list (pkt * bool)) (l : list state) (rs : list (list Z)) :
   end.
 
 Definition step (s : mst) (r : list Z) : option mst :=
+  (* [-999] panic, [-998] the harness had to kill a run that did not terminate, [-997] crash *)
+  if tag r <? 0 then None else
   if tag r =? 8 then
     let k := rkey r in
     match getc s k with
@@ -227,4 +229,6 @@ Definition step (s : mst) (r : list Z) : option mst :=
   end.
 
 Definition monitor (i : ops) (o : outs) : option Z :=
-  snd (run_from step 0 {| cs := []; idle_ms := param i 20 10000; ka_ms := param i 21 0 |} o).
+  match o with [] => Some 0 | _ => (* an empty trace is not a run *)
+  snd (run_from step 0 {| cs := []; idle_ms := param i 20 10000; ka_ms := param i 21 0 |} o)
+  end.
